@@ -52,7 +52,11 @@ func plainUplink(r *rand.Rand) ([]byte, string) {
 		if r.Intn(10) == 0 { // the NAS message container is an LV-E of up to 65535 octets: sizes around buffer sizes and powers of two
 			n = pick(r, 255, 256, 2040+r.Intn(20), 4090+r.Intn(12), 8192, 16383, 16384, 32768, 65000, 300+r.Intn(60000))
 		}
-		return nasTestpacket.GetSecurityModeComplete(rbytes(r, n)), "SecurityModeComplete"
+		cont := rbytes(r, n)
+		if r.Intn(2) == 0 {
+			cont = blockyBytes(r, n)
+		}
+		return nasTestpacket.GetSecurityModeComplete(cont), "SecurityModeComplete"
 	case 1:
 		return nasTestpacket.GetSecurityModeComplete(nil), "SecurityModeComplete(no container)"
 	case 2:
